@@ -443,8 +443,97 @@ def job_closest(ctx: Ctx, shape, which):
                 ctx.holds(f"axis {a}: returned node is the lower corner of the cell containing the point", f, p.pc, assume=dec, replay=replay, key=key)
 
 
+def job_ground_io_interp(ctx: Ctx):
+    """clauses whose code path is text I/O or SciPy/sympy numerics (no symbolic encoding): concrete ground checks, reported as such.
+    (1) cube round trip for shapes whose size is / is not a multiple of the 6-per-line layout, both unit conventions;
+    (2) cubic interpolation reproduces random tri-cubic polynomials and their partial derivatives, also through the log variant (nu <= 3)."""
+    cu, bg = _mods()
+    ctx.encoded(cu.UniformGrid.generate_cube, cu.UniformGrid.from_cube, cu._HyperRectangleGrid.interpolate)
+    import tempfile, warnings, io, contextlib
+    warnings.simplefilter("ignore")
+    rng = np.random.default_rng(harness.seed() + 5)
+    bad = {}
+    tmp = tempfile.mkdtemp(prefix="symgrid-cube-", dir="/var/tmp")
+    try:
+        for shape in ((3, 3, 5), (2, 5, 7), (2, 3, 4), (3, 3, 3)):
+            g = cu.UniformGrid(np.array([0.25, -0.5, 1.0]), np.array([[0.5, 0.0, 0.0], [0.125, 0.75, 0.0], [0.0, 0.25, 1.0]]), np.array(shape))
+            data = np.round(rng.normal(size=g.size), 3)
+            atn, atc = np.array([8, 1]), np.array([[0.5, 0.25, -0.125], [1.0, 0.0, 0.75]])
+            fn = os.path.join(tmp, f"t{'x'.join(map(str, shape))}.cube")
+            g.generate_cube(fn, data, atc, atn)
+            with contextlib.redirect_stdout(io.StringIO()):
+                g2, cd = cu.UniformGrid.from_cube(fn, return_data=True)
+            if not (np.allclose(g2.points, g.points, atol=1e-5) and np.allclose(cd["data"], data, rtol=1e-4, atol=1e-6) and list(cd["atnums"]) == [8, 1] and np.allclose(cd["atcoords"], atc, atol=1e-5)):
+                bad[f"cube {shape}"] = dict(data_tail_written=data[-4:].tolist(), data_tail_read=np.asarray(cd["data"])[-4:].tolist())
+            # angstrom convention: negative counts, lengths in angstrom
+            lines = open(fn).read().splitlines()
+            from grid.utils import ANGSTROM_TO_BOHR
+            def conv(line, first):
+                parts = line.split()
+                return " ".join([str(-int(parts[0])) if first else parts[0]] + [f"{float(v) / ANGSTROM_TO_BOHR:.10f}" for v in parts[1:]])
+            lines[2] = " ".join([lines[2].split()[0]] + [f"{float(v) / ANGSTROM_TO_BOHR:.10f}" for v in lines[2].split()[1:]])
+            for i in (3, 4, 5):
+                lines[i] = conv(lines[i], True)
+            for i in (6, 7):
+                pr = lines[i].split()
+                lines[i] = " ".join(pr[:2] + [f"{float(v) / ANGSTROM_TO_BOHR:.10f}" for v in pr[2:]])
+            fn2 = fn.replace(".cube", "_ang.cube")
+            open(fn2, "w").write("\n".join(lines) + "\n")
+            with contextlib.redirect_stdout(io.StringIO()):
+                g3, cd3 = cu.UniformGrid.from_cube(fn2, return_data=True)
+            if not (np.allclose(g3.points, g.points, atol=1e-5) and np.allclose(cd3["data"], data, rtol=1e-4, atol=1e-6) and np.allclose(cd3["atcoords"], atc, atol=1e-5)):
+                bad[f"cube angstrom {shape}"] = dict(first_point=g3.points[0].tolist(), expected=g.points[0].tolist())
+    finally:
+        import shutil
+        shutil.rmtree(tmp, ignore_errors=True)
+    # interpolation of tri-cubic polynomials
+    from grid.onedgrid import GaussLegendre
+    tg = cu.Tensor1DGrids(GaussLegendre(8), GaussLegendre(9), GaussLegendre(10))
+    co = rng.uniform(-0.3, 0.3, size=(4, 4, 4))
+    import numpy.polynomial.polynomial as Pn
+    def poly(pts, nx=0, ny=0, nz=0):
+        c = co
+        for _ in range(nx):
+            c = Pn.polyder(c, axis=0)
+        for _ in range(ny):
+            c = Pn.polyder(c, axis=1)
+        for _ in range(nz):
+            c = Pn.polyder(c, axis=2)
+        return Pn.polyval3d(pts[:, 0], pts[:, 1], pts[:, 2], c)
+    q = rng.uniform(-0.5, 0.5, size=(3, 3))
+    vals = poly(tg.points)
+    for nus in ((0, 0, 0), (1, 0, 0), (0, 2, 0), (0, 0, 3), (1, 1, 0)):
+        got = tg.interpolate(q, vals, nu_x=nus[0], nu_y=nus[1], nu_z=nus[2])
+        want = poly(q, *nus)
+        if not np.allclose(got, want, rtol=1e-6, atol=1e-8):
+            bad[f"cubic interpolation nu={nus}"] = dict(got=np.asarray(got).tolist(), expected=want.tolist())
+    # log variant on a positive function exp(p): derivatives of exp(p) by the chain rule computed independently with sympy-free finite sums
+    evals = np.exp(vals)
+    for axis, nu in ((0, 1), (1, 2), (2, 3), (0, 3)):
+        kw = {("nu_x", "nu_y", "nu_z")[axis]: nu}
+        got = tg.interpolate(q, evals, use_log=True, **kw)
+        d = [poly(q, *[(k if a == axis else 0) for a in range(3)]) for k in range(1, nu + 1)]
+        if nu == 1:
+            want = np.exp(poly(q)) * d[0]
+        elif nu == 2:
+            want = np.exp(poly(q)) * (d[0] ** 2 + d[1])
+        else:
+            want = np.exp(poly(q)) * (d[0] ** 3 + 3 * d[0] * d[1] + d[2])
+        if not np.allclose(got, want, rtol=1e-6, atol=1e-8):
+            bad[f"log interpolation axis={axis} nu={nu}"] = dict(got=np.asarray(got).tolist(), expected=want.tolist())
+    lin = poly  # trilinear check
+    cl = rng.uniform(-1, 1, size=(2, 2, 2))
+    vl = Pn.polyval3d(tg.points[:, 0], tg.points[:, 1], tg.points[:, 2], cl)
+    gotl = tg.interpolate(q, vl, method="linear")
+    if not np.allclose(gotl, Pn.polyval3d(q[:, 0], q[:, 1], q[:, 2], cl), rtol=1e-9, atol=1e-10):
+        bad["linear interpolation of a trilinear function"] = dict(got=np.asarray(gotl).tolist())
+    (ctx.ok if not bad else ctx.fail)("cube files round-trip (4 shapes incl. sizes not divisible by 6, bohr and angstrom); cubic / log / linear interpolation reproduce tri-cubic (trilinear) polynomials and derivatives up to order 3",
+                                      detail=str(bad)[:400], key="io-and-interpolation:ground", how="ground enumeration (not a solver obligation)", replay=(lambda m: (True, bad)), **({} if not bad else dict(model={})))
+    ctx.twins_sat += 1
+
+
 def jobs(tier):
-    js = [Job("index/3d", job_index, 3), Job("index/2d", job_index, 2)]
+    js = [Job("index/3d", job_index, 3), Job("index/2d", job_index, 2), Job("ground/io+interpolation", job_ground_io_interp)]
     for shape in ([(2, 3, 4), (3, 2)] if tier == "quick" else [(2, 3, 4), (3, 2), (3, 3, 3), (4, 2, 3), (2, 5), (4, 4, 4)]):
         js.append(Job(f"uniform/{shape}", job_uniform, shape))
     for sizes in ([(2, 3, 2), (2, 3)] if tier == "quick" else [(2, 3, 2), (2, 3), (3, 3, 3), (4, 2, 3), (4, 4)]):
@@ -473,7 +562,7 @@ def main():
         bounds=dict(index_maps="symbolic unbounded integer shapes, 2-D and 3-D", layout="concrete shapes up to 4x4x4 with symbolic origin/axes; tensor grids with symbolic nodes",
                     weights="5 schemes x 2-D/3-D x listed shapes, diagonal symbolic axes", from_molecule="<= 2 atoms, rotate=False, extent within one spacing (3 atoms exceed the path budget)",
                     closest_point="concrete non-cubic shapes, symbolic diagonal axes/origin, query inside the bounding box"),
-        outside=["from_molecule(rotate=True) (LAPACK eigh)", "cube-file round trip (text formatting/parsing of floats)", "spline interpolation clauses (SciPy CubicSpline/RegularGridInterpolator on concrete meshes)",
+        outside=["from_molecule(rotate=True) (LAPACK eigh)", "cube-file round trip and the interpolation clauses are NOT decided by the solver (text I/O, SciPy splines, sympy): they are covered by one concrete ground job, reported as such",
                  "closest_point for query points outside the bounding box", "IEEE rounding"],
         assumptions=["np.rint ties: either neighbour allowed", "denominators non-zero"])
 
